@@ -12,6 +12,9 @@ src = f"/tmp/mutwt/{prop}/_out"
 patch, demo, meta = (os.path.join(src, f"{n}{idx}.{e}") for n, e in (("patch", "diff"), ("demo", "py"), ("meta", "json")))
 out = os.path.join(VERIF, "seeded", f"{prop}-{idx}")
 os.makedirs(out, exist_ok=True)
+if not os.path.exists(patch):
+    # already stored: re-evaluate the kept copy
+    patch, demo, meta = (os.path.join(out, n) for n in ("patch.diff", "demo.py", "meta.json"))
 wt = tempfile.mkdtemp(prefix="seedwt.", dir="/tmp"); os.rmdir(wt)
 subprocess.check_call(["git", "-C", "/repo", "worktree", "add", "-q", "--detach", wt, "HEAD"])
 info = json.load(open(meta)) if os.path.exists(meta) else {}
@@ -58,8 +61,9 @@ try:
 finally:
     subprocess.run(["git", "-C", "/repo", "worktree", "remove", "--force", wt])
     subprocess.run(["git", "checkout", "-q", "--", "evidence"], cwd=VERIF)
-shutil.copy(patch, os.path.join(out, "patch.diff"))
-shutil.copy(demo, os.path.join(out, "demo.py"))
+if os.path.dirname(patch) != out:
+    shutil.copy(patch, os.path.join(out, "patch.diff"))
+    shutil.copy(demo, os.path.join(out, "demo.py"))
 json.dump(result, open(os.path.join(out, "meta.json"), "w"), indent=1)
 print(prop, idx, "confirmed" if result.get("confirmed") else "NOT-CONFIRMED", "caught" if result.get("caught") else "MISSED",
       {k: (v["exit"], v["caught_by"]) for k, v in result.get("checks", {}).items()}, result.get("error", ""))
